@@ -781,13 +781,13 @@ def run_streams(run, tier, seed):
                rejected_by_impl=sum(1 for o in outs if o["pkg"] is None))
     report(run, "bcorpus", bad, cs, outs)
     # generated designs
-    n = 260 if quick else 5000
+    n = 260 if quick else 3000
     designs, k, skipped = [], 0, 0
     while len(designs) < n:
         r = core.rng(seed, "C01", "bdesigns", k)
         k += 1
         d = gen_bdesign(r, size=r.choice([1, 2, 2]) if quick else r.choice([1, 2, 3]))
-        if len(terminals(d)) > (110 if quick else 180):
+        if len(terminals(d)) > (110 if quick else 150):
             skipped += 1
             continue
         designs.append(d)
